@@ -275,6 +275,9 @@ func (b *StscBox) findEntryNrForChunkNr(chunkNr uint32) uint32 {
 			low = mid + 1
 		}
 	}
+	if low == 0 {
+		return 0 // chunkNr lies before the first entry (only in a malformed box)
+	}
 	return uint32(low - 1)
 }
 
